@@ -30,7 +30,8 @@ fn aligned_bytes(n: usize) -> Vec<u8> {
 /// symbolic contents, all four rectangle coordinates and the image
 /// width/height arbitrary u16. Full pointer checks.
 macro_rules! blit {
-    ($name:ident, $w:expr, $h:expr, $d:expr, $unw:expr) => {
+    ($name:ident, $w:expr, $h:expr, $d:expr, $unw:expr) => { blit!($name, $w, $h, $d, $unw, 0); };
+    ($name:ident, $w:expr, $h:expr, $d:expr, $unw:expr, $spare:expr) => {
         #[kani::proof]
         #[kani::unwind($unw)]
         fn $name() {
@@ -42,7 +43,8 @@ macro_rules! blit {
             let mut i = 0;
             while i < W * H { buffer.push(orig[i]); i += 1; }
             let bytes: [u8; D] = kani::any();
-            let mut data: Vec<u8> = aligned_bytes(D);
+            // $spare > 0: the image vector has more capacity than length (a Vec that grew, or was read with a larger reservation)
+            let mut data: Vec<u8> = aligned_bytes(D + $spare);
             let mut i = 0;
             while i < D { data.push(bytes[i]); i += 1; }
             let left: u16 = kani::any();
@@ -59,6 +61,8 @@ macro_rules! blit {
             kani::cover!(D < 4 || (r.is_ok() && inside), "a rectangle inside the window was painted");
             kani::cover!(D < 16 || W < 2 || H < 2 || (r.is_ok() && inside && right > left && bottom > top), "a rectangle of more than one row and column was painted");
             if r.is_ok() && inside {
+                let need = ((bottom - top) as usize * bw as usize + (right - left) as usize + 1) * 4;
+                assert!(need <= D, "Ok => the image holds every pixel the rectangle needs (its length, not its allocation)");
                 let mut y = 0;
                 while y < H {
                     let mut x = 0;
@@ -90,6 +94,8 @@ blit!(c19_blit_3x2_d24, 3, 2, 24, 26);
 blit!(c19_blit_3x3_d36, 3, 3, 36, 38);
 blit!(c19_blit_2x3_d8, 2, 3, 8, 10);
 blit!(c19_blit_4x2_d32, 4, 2, 32, 34);
+blit!(c19_blit_2x2_d8_spare, 2, 2, 8, 10, 16);
+blit!(c19_blit_1x2_d4_spare, 1, 2, 4, 6, 4);
 
 #[kani::proof]
 #[kani::unwind(6)]
